@@ -21,7 +21,9 @@ SPEC = dict(
                  'the reference returned by a mutable accessor is used immediately and not kept across a later copy of that Variant (v.toList().append(v) with a shared-to-be payload is not generated)',
                  'typed assignment of a container that lives inside an element of the receiver (v = ((const Variant&)v).toList().front().toList()) is not generated: List/Array/HashMap::operator= '
                  'with an argument inside one of its own elements is a container aliasing question (C04); the Variant overload operator=(const Variant&) with such an argument is generated',
-                 'strings contain no NUL bytes and no "nan"/"inf" texts'],
+                 'strings contain no NUL bytes and no "nan"/"inf" texts',
+                 'fallback build (-DVERIF_NO_PRIVATE): the state class inline/unique/shared (context keys, clone counters, non-trivial rule) comes from the harness\'s own record of payload '
+                 'identities in the model instead of the private reference count; all value, coercion and equality oracles are unchanged'],
     technique='tagged-tree value model in plain C structs, ASan/UBSan/LSan',
     exhaustive={Q: False, T: False},
     jobs=[job('hist', 'h_variant', 'hist', cases={Q: 40000, T: 400000}, procs=16, probes=PROBES)],
